@@ -205,8 +205,15 @@ class C09:
         env_eval = rc.random() < 0.5
         if variant == "pdp_rr" and n < 6 and any(s["source"] == "policy" for s in segs):
             env_eval = False   # see `excluded`: N2S reads the last 3 rows of action_record
+        # perturbation "alternate": another episode is reset (and moved once) on the same environment object
+        # in the middle of this one; an episode's state lives in its TensorDict, not in the environment
+        alternate = None
+        if rc.random() < 0.3:
+            alternate = {"at": rc.randint(1, max(1, min(total, 12))),
+                         "rows": [rc.randrange(m) for _ in range(rc.choice([b, b, 1, b + 1]))],
+                         "seed": rc.randrange(1 << 30)}
         return {"variant": variant, "cfg": cfg, "instances": [E.enc_row(r) for r in rows], "rows": sel,
-                "mirror": mirror, "segments": segs, "snapshot": snapshot,
+                "mirror": mirror, "segments": segs, "snapshot": snapshot, "alternate": alternate,
                 "env_eval": env_eval,
                 "policy": {"embed_dim": rc.choice([32, 64]), "layers": rc.choice([1, 2]), "heads": rc.choice([2, 4])}}
 
@@ -222,6 +229,10 @@ class C09:
         if plan.get("snapshot"):
             p = copy.deepcopy(plan)
             p["snapshot"] = None
+            yield p
+        if plan.get("alternate"):
+            p = copy.deepcopy(plan)
+            p["alternate"] = None
             yield p
         if len(plan["rows"]) > 1:
             for ri in range(len(plan["rows"])):
@@ -506,6 +517,15 @@ def _execute(run):
     for seg in plan["segments"]:
         for _ in range(seg["n"]):
             t += 1
+            alt = plan.get("alternate")
+            if alt and t == alt["at"]:
+                _seed(alt["seed"])
+                with run.guard(scope, "reset of another episode on the same environment", promise=False):
+                    td_alt = env.reset(E.stack_rows([{k: x.clone() for k, x in insts[i].items()} for i in alt["rows"]]))
+                    td_alt.set("action", env._random_action(td_alt).clone())
+                    env.step(td_alt)
+                run.fault("alternate", t)
+                run.nontrivial = True
             prev_rec = td["rec_current"].tolist()
             prev_cost = [float(x) for x in td["cost_current"].tolist()]
             kind, a = _propose(run, env, pol, plan, td, seg, t, rows)
